@@ -713,6 +713,41 @@ def gen_tables():
     e.defn("SERVER_IS_SEQUENTIAL", "bool", "false" if (threaded or spawns) else "true")
     e.defn("SERVER_CLASS", "str", coq_str(ctor[0].func.attr))
 
+    # ---- CStruct layouts (sgx/envelope.py, admin/attestation_utils.py): field offsets and sizes
+    import struct as _struct
+    import sgx.envelope as ENV
+    import admin.attestation_utils as AU
+    from comm.cstruct import CStruct
+
+    def layout(cls):
+        st, atrmap, names, types, typename = cls._spec(True)
+        fmt = st.format
+        need(fmt[0] == "<", "unexpected struct byte order")
+        items = re.findall(r"(\d*)([A-Za-z])", fmt[1:])
+        need(len(items) == len(names), "layout items/names mismatch for " + cls.__name__)
+        off = 0
+        out = []
+        for (cnt, ch), nm in zip(items, names):
+            sz = _struct.calcsize("<" + cnt + ch)
+            out.append((nm, off, sz))
+            off += sz
+        need(off == st.size, "layout size mismatch for " + cls.__name__)
+        return out, st.size
+    for cls in (ENV.SgxReportBody, ENV.SgxQuote, ENV.SgxReportData, ENV.SgxQuoteAuthData,
+                ENV.SgxEcdsa256Signature, ENV.SgxEcdsa256Key, ENV.SgxQuoteTail, ENV.SgxEnvelope,
+                ENV.SgxQeAuthData, ENV.SgxQeCertData, AU.PowHsmAttestationMessage):
+        lay, size = layout(cls)
+        nm = ident(cls.__name__)
+        e.defn("LAYOUT_" + nm, "list (str * (N * N))",
+               coq_list("(%s, (%d, %d))" % (coq_str(n_), o_, s_) for n_, o_, s_ in lay))
+        e.defn("SIZEOF_" + nm, "N", coq_N(size))
+    e.defn("POWHSM_HEADER_LEN", "N", coq_N(len(b"POWHSM:5.4::")))
+    import admin.verify_ledger_attestation as VL
+    for nm in ("UD_VALUE_LENGTH", "PUBLIC_KEYS_HASH_LENGTH", "PUBKEY_COMPRESSED_LENGTH",
+               "SIGNER_HASH_LENGTH", "SIGNER_ITERATION_LENGTH"):
+        e.defn("VL_" + nm, "N", coq_N(getattr(VL, nm)))
+    e.defn("VL_UI_DERIVATION_PATH", "str", coq_str(VL.UI_DERIVATION_PATH))
+
     # ---- documented result codes (docs/protocol.md)
     doc = open(os.path.join(env.REPO, "docs", "protocol.md")).read()
     titles = {"Get version": P.VERSION_COMMAND, "Sign": P.SIGN_COMMAND,
